@@ -80,9 +80,10 @@ macro_rules! render_primitive {
                     self
                 }
 
-				fn to_html_with_buf(self, buf: &mut String, position: &mut Position, _escape: bool, _mark_branches: bool, _extra_attrs: Vec<AnyAttribute>) {
+				fn to_html_with_buf(self, buf: &mut String, position: &mut Position, escape: bool, _mark_branches: bool, _extra_attrs: Vec<AnyAttribute>) {
 					// add a comment node to separate from previous sibling, if any
-					if matches!(position, Position::NextChildAfterText) {
+					// (not inside script/style/textarea/noscript, where `<!>` would be literal text)
+					if escape && matches!(position, Position::NextChildAfterText) {
 						buf.push_str("<!>")
 					}
 					_ = write!(buf, "{}", self);
